@@ -1337,7 +1337,13 @@ void f_bind (void) {
     error ("Permission of binding denied by master object.\n");
 
   new_fp = ALLOCATE (funptr_t, TAG_FUNP, "f_bind");
-  *new_fp = *old_fp;
+  /* function pointers are allocated with the size of their own kind: copy no more than the old one holds */
+  memset (new_fp, 0, sizeof (*new_fp));
+  new_fp->hdr = old_fp->hdr;
+  if ((old_fp->hdr.type & 0x0f) == FP_FUNCTIONAL)
+    new_fp->f.functional = old_fp->f.functional;
+  else
+    new_fp->f.local = old_fp->f.local; /* efun, simul and local pointers share this layout */
   new_fp->hdr.owner = ob;	/* one ref from being on stack */
   if (new_fp->hdr.args)
     new_fp->hdr.args->ref++;
